@@ -7,9 +7,9 @@ From DV Require Import Base.Field Base.FieldFacts Base.LinAlg Base.Tactics Model
 Import ListNotations.
 Local Open Scope fld_scope.
 
-(* a point coordinate at which mode m differentiates exactly along an axis of length n and, used as a cross axis,
-   keeps prewitt / sobel away from the zero padding *)
-Definition reg1 (m : fdmode) (n i : nat) : Prop := exact1 m n i /\ smooth_ok m n i.
+(* a point coordinate at which mode m differentiates exactly along an axis of length n (every index for
+   forward_central_backward / prewitt / sobel; all but the replicate-padded end(s) for forward / backward / central) *)
+Definition reg1 (m : fdmode) (n i : nat) : Prop := exact1 m n i.
 
 Section Fields.
 Context {K : fld}.
@@ -43,7 +43,7 @@ Proof.
 Qed.
 
 Lemma reg_lt m n i : reg1 m n i -> (i < n)%nat.
-Proof. intros [H _]. destruct m; cbn in H; lia. Qed.
+Proof. intro H. destruct m; cbn in H; lia. Qed.
 
 (* ---------------- D = 2 ---------------- *)
 Section D2.
@@ -57,7 +57,7 @@ Let u := affvec2 A [t0; t1] hx hy nx ny.
 
 Lemma jac2_affine : jac2_at (jacT2 m [hx; hy] u) y x = A.
 Proof.
-  destruct Rx as [Ex Sx]. destruct Ry as [Ey Sy].
+  pose proof (reg_lt _ _ _ Rx) as Lx'. pose proof (reg_lt _ _ _ Ry) as Ly'. unfold reg1 in *.
   unfold jac2_at, je2, jacT2, u, affvec2, A, mat2, jat, at2. cbn [map seq nth].
   rewrite !(dstep2_affine_x K Kf Kc) by assumption. rewrite !(dstep2_affine_y K Kf Kc) by assumption. reflexivity.
 Qed.
@@ -122,7 +122,7 @@ Let u := affvec3 A [t0; t1; t2] hx hy hz nx ny nz.
 
 Lemma jac3_affine : jac3_at (jacT3 m [hx; hy; hz] u) z y x = A.
 Proof.
-  destruct Rx as [Ex Sx]. destruct Ry as [Ey Sy]. destruct Rz as [Ez Sz].
+  pose proof (reg_lt _ _ _ Rx) as Lx'. pose proof (reg_lt _ _ _ Ry) as Ly'. pose proof (reg_lt _ _ _ Rz) as Lz'. unfold reg1 in *.
   unfold jac3_at, je3, jacT3, u, affvec3, A, mat3, jat. cbn [map seq nth].
   rewrite !(dstep3_affine_x K Kf Kc) by assumption. rewrite !(dstep3_affine_y K Kf Kc) by assumption.
   rewrite !(dstep3_affine_z K Kf Kc) by assumption. reflexivity.
